@@ -55,6 +55,11 @@ CLAIMED.update({
          "Readings fit 32 signed bits (the property's restriction); coverage is claimed for the server contacted by the final round; socket layer is the simulated fabric."),
 })
 
+CLAIMED.update({
+ "C09": ("exploration", "5.9", "Real client, a meter performing seeded edit sequences on energy_data.csv (append, rewrite, duplicate timestamp, reorder, malformed lines, header variants, truncate-then-write with a client read in between), client restarts, every datagram captured at a UDP sink, sync rounds whose retransmissions cover every stored slot. All acted-on datagrams of one slot must be identical and carry the stored first reading; stored readings never change. Then the history store through its save/load wrappers against a map model with slots before the origin, at it, far beyond the file end, at the 32 bit offset wrap, and value 0. Readings outside the 32 bit signed range are a separate generator class whose violation is a recorded known finding.",
+         "Known finding C09.first@wide / C09.identity@wide (64 bit live value vs 32 bit history) is printed as KNOWN-FINDING and does not fail the check."),
+})
+
 NOT_YET = {
 }
 
